@@ -83,7 +83,31 @@ use super::*;
                 && aframe(fr) == entry_out(abs_member(sb, *rem0[k]), aframe(*old(frame)))
                 && (*final(members)).remaining() == rem0.skip(k + 1),
             None => forall|j: int| 0 <= j < rem0.len() ==> !applies(abs_member(sb, *#[trigger] rem0[j]), line),
-          } }),""")
+          } }),
+        /*@L:step_of_retrace:C01,C02*/ ({ let es = abs_members(cache.string_bytes@, (*old(members)).remaining()); let f = aframe(*old(frame));
+          match ret {
+            Some(fr) => retrace(es, f).len() > 0 && aframe(fr) == retrace(es, f)[0]
+                && retrace(abs_members(cache.string_bytes@, (*final(members)).remaining()), f) == retrace(es, f).drop_first(),
+            None => retrace(es, f).len() == 0 && (*final(members)).remaining().len() == 0,
+          } }),
+        (*final(members)).obeys_prophetic_iter_laws(), (*final(members)).decrease() is Some,
+        wf_members(cache.string_bytes@, (*final(members)).remaining()),""")
+        f.insert_before("return Some(StackFrame", """proof {
+            let sb = cache.string_bytes@;
+            let es = abs_members(sb, rem0);
+            assert forall|j: int| 0 <= j < n - 1 implies !applies(#[trigger] es[j], frame.line as int) by { assert(es[j] == abs_member(sb, *rem0[j])); }
+            assert(es[n - 1] == abs_member(sb, *rem0[n - 1]));
+            lemma_retrace_first(es, aframe(*frame), n - 1);
+            assert(abs_members(sb, rem0.skip(n)) == es.skip(n));
+        }
+        """)
+        f.before_tail("""proof {
+        let sb = cache.string_bytes@;
+        let es = abs_members(sb, rem0);
+        assert forall|j: int| 0 <= j < es.len() implies !applies(#[trigger] es[j], frame.line as int) by { assert(es[j] == abs_member(sb, *rem0[j])); }
+        lemma_retrace_none(es, aframe(*frame));
+    }
+    """)
         inv_extra = """            wf_members(cache.string_bytes@, rem0),
             frame.line < 0xffff_ffff,
             forall|j: int| 0 <= j < n ==> !applies(abs_member(cache.string_bytes@, *#[trigger] rem0[j]), frame.line as int),"""
@@ -136,7 +160,10 @@ use super::*;
                 && aframe(fr) == entry_out_params(abs_member(sb, *rem0[0]), aframe(*old(frame)))
                 && (*final(members)).remaining() == rem0.skip(1),
             None => rem0.len() == 0,
-          } }),""")
+          } }),
+        (*final(members)).obeys_prophetic_iter_laws() == (*old(members)).obeys_prophetic_iter_laws(),
+        (*final(members)).decrease() is Some == (*old(members)).decrease() is Some,
+        wf_members(cache.string_bytes@, (*final(members)).remaining()),""")
         g.body_start("let ghost rem0 = members.remaining();\n")
         g.insert_after("let member = members.next()?;", "\n    proof { assert(rem0.drop_first() == rem0.skip(1)); assert(wf_member(cache.string_bytes@, *rem0[0])); }")
     else:
@@ -258,6 +285,70 @@ use super::*;
         gc.contract("    ensures true,")
     u.emit(gc)
 
+    # ---------------- remap_class ----------------
+    rc = cm.impl_fn(IMPL, "remap_class")
+    rc.ret("ret")
+    rc.props_safety = ["C12"]
+    rc.props_all = ["C04", "C02"] if fun else ["C12"]
+    if fun:
+        rc.contract("""    requires wf_cache(*self),
+    ensures
+        /*@L:remap_class_exact:C04,C02*/ match ret {
+            Some(s) => exists|i: int| #[trigger] has_class(*self, i, class@) && tbl(self.string_bytes@, self.classes@[i].original_name_offset) == Some(s@),
+            None => no_class(*self, class@),
+        },""")
+        rc.body_start("let ghost name0 = class@;\n")
+        rc.after_stmt("let class = self.get_class(", """        proof {
+            let i = choose|i: int| 0 <= i < self.classes@.len() && *class == #[trigger] self.classes@[i];
+            assert(has_class(*self, i, name0));
+            assert(wf_class(*self, self.classes@[i]));
+        }
+""")
+    else:
+        rc.contract("    ensures true,")
+    u.emit(rc)
+
     u.raw("} // impl ProguardCache\n", "glue")
+    # =================== RemappedFrameIter ===================
+    from .common import extract_struct_priv
+    extract_struct_priv(u, cm, "RemappedFrameIter")
+    IT = r"impl<'data> RemappedFrameIter<'_, 'data>"
+    u.raw(cm.impl_header(IT) + "{\n", "glue")
+    e = cm.impl_fn(IT, "empty")
+    e.ret("ret")
+    e.props_all = ["C01", "C02", "C03"] if fun else ["C12"]
+    e.contract("    ensures /*@L:empty_iter:C01,C02,C03*/ ret.inner is None," if fun else "    ensures true,")
+    u.emit(e)
+    mfn = cm.impl_fn(IT, "members")
+    mfn.ret("ret")
+    mfn.props_all = ["C01", "C02", "C03"] if fun else ["C12"]
+    mfn.contract("    ensures /*@L:members_iter:C01,C02,C03*/ ret.inner == Some((cache, frame, members))," if fun else "    ensures true,")
+    u.emit(mfn)
+    u.raw("}\n", "glue")
+
+    ITI = r"impl<'data> Iterator for RemappedFrameIter<'_, 'data>"
+    # R8: Verus forbids `requires` on trait-method implementations, so `Iterator::next` is verified as an inherent
+    # method with the same body (`Self::Item` spelled out); the trait-impl header is what is dropped.
+    u.raw("impl<'data> RemappedFrameIter<'_, 'data> {\n", "glue")
+    nx = cm.impl_fn(ITI, "next")
+    nx.replace("Self::Item", "StackFrame<'data>", "R8", why="trait method verified as inherent method: associated type spelled out")
+    nx.ret("ret")
+    nx.props_safety = ["C12"]
+    nx.props_all = ["C01", "C02", "C03"] if fun else ["C12"]
+    if fun:
+        nx.contract("""    requires it_wf(*old(self)),
+    ensures
+        it_wf(*final(self)),
+        /*@L:next_is_head_of_answers:C01,C02,C03*/ match ret {
+            Some(fr) => it_answers(*old(self)).len() > 0 && aframe(fr) == it_answers(*old(self))[0]
+                && it_answers(*final(self)) == it_answers(*old(self)).drop_first(),
+            None => it_answers(*old(self)).len() == 0,
+        },""")
+    else:
+        nx.contract("""    requires match old(self).inner { None => true, Some((cache, frame, members)) => members.obeys_prophetic_iter_laws() && members.decrease() is Some },
+    ensures match final(self).inner { None => true, Some((cache, frame, members)) => members.obeys_prophetic_iter_laws() && members.decrease() is Some },""")
+    u.emit(nx)
+    u.raw("}\n", "glue")
+
     u.raw(FOOTER, "footer")
     return u
